@@ -38,6 +38,7 @@ func main() {
 		tieS:  res.Tie("small-scope", "K2", "ALL call sequences up to the stated length over ids {a,b}, values {1//-,2/x/-}, ops add/upd/upd+create/del/del+allow-missing/get/list; and (length <=3) ALL sequences under the lower-casing id interceptor over ids {a,A,''} with id generation from a colliding rng, and ALL sequences of writes on one Value / one item with restricted writable fields, each write widening them its own way (none, all-writable, more-writable, update mask, reset mask), also on OpenClosePosition with only open_percent writable next to open_percent_tween; distinct = distinct sequences"),
 		tieO:  res.Tie("shared-options", "K2", "ALL call sequences up to the stated length over add/upd/del/get/list on one id where every call takes a view opts[:k] (every k; for two of the lists also opts[1:k]) of ONE option slice with spare capacity (a caller re-using its option list): compared per call as above; distinct = distinct sequences"),
 		tieM:  res.Tie("mask-shapes", "K2", "ALL combinations of writable fields x update mask x reset mask x stored message x written message over masks naming the nested message field, its sub-fields, both, and other fields (parents/children), one Update (create-if-absent) followed by Gets under nested read masks; compared per call as above; distinct = distinct combinations"),
+		tieR:  res.Tie("resource-options", "K2", "ALL ordered lists up to the stated length of resource options (WithWritableFields mask/nil, WithWritablePaths, WithIDInterceptor f/nil, WithInitialValue v/nil, WithInitialRecord incl. the same id twice and two spellings of one id, WithEquivalence, EmptyOption) given to NewCollection / NewValue, followed by a fixed probe sequence (List, Get by both spellings, masked Update, Add, Delete / Get, Set, Get): model (fold of the list as computeConfig does) vs code, per call as above, and whether construction panics; distinct = distinct (option list, call)"),
 		tieP:  res.Tie("mask-paths", "K2", "ALL lists of path strings up to the stated length over an alphabet of real paths of OpenClosePosition (incl. the siblings open_percent / open_percent_tween, whose names are related by textual prefix, and paths one and two levels inside the latter) and of TestAllTypes (three levels), handed to a Value as read mask, update mask, reset mask and writable fields: the leaf fields acted on, code vs the string-level model of withoutNestedPaths/nestedMask; and every path of the alphabet as update path against every writable list up to length 2 (Validate), code vs isWritablePath of the model; distinct = distinct (type, site, list)"),
 		mon:   res.Monitor("reference-map", "every call of every tie run is checked against a plain Go register/map oracle (fieldwise merge) and the property's clauses: failed call => contents and clock-free state unchanged and no bus event; List = sorted filtered contents; generated id non-empty, unused, reported once, usable"),
 	}
@@ -46,6 +47,7 @@ func main() {
 	h.sharedScope(f.N(2, 3))
 	h.maskScope(f.Tier == "thorough")
 	h.pathScope(f.N(3, 4))
+	h.resScope(f.N(3, 4))
 	// the defect witnesses first (small, fixed), then random
 	for _, s := range fixedScripts() {
 		h.runScript(s, h.tieFor(s))
@@ -63,6 +65,7 @@ func main() {
 	h.tieO.Exhaustive = true
 	h.tieM.Exhaustive = true
 	h.tieP.Exhaustive = true
+	h.tieR.Exhaustive = true
 	res.Extra["ops_total"] = h.ops
 	pw := h.cover.report([]string{"upd", "add", "del", "vset", "get", "list", "vget"}, []string{"rm", "inc"})
 	res.Extra["pairwise_option_coverage"] = pw
@@ -77,6 +80,7 @@ type harness struct {
 	drv              *lib.Driver
 	tieC, tieV, tieS *lib.Tie
 	tieO, tieM, tieP *lib.Tie
+	tieR             *lib.Tie
 	mon              *lib.Monitor
 	ops              int
 }
@@ -91,12 +95,18 @@ func (h *harness) tieFor(s Script) *lib.Tie {
 // runCode executes the script on the real code: one answer per op.
 func runCode(s Script) (out []string, init string, notes []string) {
 	r := newReal(s.Cfg, true)
+	out = make([]string, len(s.Ops))
+	notes = make([]string, len(s.Ops))
+	if r.panicked != "" {
+		for i := range out {
+			out[i] = constructPanic
+		}
+		return out, constructPanic, notes
+	}
 	r.share = s.Share
 	r.prepare(s.Ops)
 	defer r.close()
 	init = r.dump()
-	out = make([]string, len(s.Ops))
-	notes = make([]string, len(s.Ops))
 	for i, op := range s.Ops {
 		if op.isWrite() {
 			a, _ := r.runWrite(op)
@@ -110,13 +120,40 @@ func runCode(s Script) (out []string, init string, notes []string) {
 	return out, init, notes
 }
 
+// constructPanic: the answer of every call of a script whose resource could not be constructed
+// (WithInitialRecord panics when the id was already given)
+const constructPanic = "panic:construct"
+
 func runOracle(s Script) []string {
-	o := newOracle(s.Cfg)
 	out := make([]string, len(s.Ops))
+	if s.Cfg.Panics {
+		for i := range out {
+			out[i] = constructPanic
+		}
+		return out
+	}
+	o := newOracle(s.Cfg)
 	for i, op := range s.Ops {
-		out[i] = o.step(op)
+		out[i] = evCount(s.Cfg, o.step(op))
 	}
 	return out
+}
+
+// evCount: next to a resource whose equivalence may suppress deliveries the code's bus events are
+// observed by their number only; the reference's and the model's answers are brought to the same form.
+func evCount(cfg Cfg, ans string) string {
+	if probed(cfg) {
+		return ans
+	}
+	ev := part(ans, "ev")
+	if ev == "" || strings.HasPrefix(ev, "#") {
+		return ans
+	}
+	n := 0
+	if inner := strings.Trim(ev, "[]"); inner != "" {
+		n = len(strings.Split(inner, ";"))
+	}
+	return strings.Replace(ans, " ev="+ev, fmt.Sprintf(" ev=#%d", n), 1)
 }
 
 func (h *harness) runModel(s Script) ([]string, error) {
@@ -129,10 +166,21 @@ func (h *harness) runModel(s Script) ([]string, error) {
 	if err != nil {
 		return nil, err
 	}
+	if ans[0] == "panic" {
+		out := make([]string, len(s.Ops))
+		for i := range out {
+			out[i] = constructPanic
+		}
+		return out, nil
+	}
 	if ans[0] != "ok" {
 		return nil, fmt.Errorf("driver rejected config %q: %s", lines[0], ans[0])
 	}
-	return ans[1:], nil
+	out := ans[1:]
+	for i := range out {
+		out[i] = evCount(s.Cfg, out[i])
+	}
+	return out, nil
 }
 
 func prefix(s Script, n int) Script {
@@ -147,21 +195,33 @@ func (h *harness) runScript(s Script, tie *lib.Tie) {
 		return
 	}
 	want := runOracle(s)
+	if s.Cfg.Eqv != "" {
+		tie.Count("cfg:equivalence=" + s.Cfg.Eqv)
+	}
+	if len(s.Cfg.Res) > 0 {
+		tie.Count("cfg:constructed-from-option-list")
+	}
+	if s.Cfg.Panics {
+		tie.Count("cfg:construction-panics")
+	}
 	for i, op := range s.Ops {
 		h.ops++
 		key := s.Cfg.line() + "#" + op.line() + "#" + pre
-		small := tie == h.tieS || tie == h.tieO || tie == h.tieM
+		small := tie == h.tieS || tie == h.tieO || tie == h.tieM || tie == h.tieR
 		if small {
 			key = scriptKey(s)
+			if tie == h.tieR {
+				key = s.Cfg.line() + "#" + key
+			}
 		}
 		tie.Record(key, !small || i == len(s.Ops)-1, map[string]any{"script": prefix(s, i+1)}, model[i], code[i])
 		tie.Count("op:" + op.Op)
-		h.cover.call(op.Op, op)
+		h.cover.call(op.Op, unspell(op))
 		if op.isWrite() {
 			// the reader of a write in this tie: the next read call of the script, if any
 			for _, rd := range s.Ops[i+1:] {
 				if !rd.isWrite() {
-					h.cover.cross(op.Op, op, []string{"rm", "inc"}, rd)
+					h.cover.cross(op.Op, unspell(op), []string{"rm", "inc"}, unspell(rd))
 					break
 				}
 			}
@@ -172,7 +232,7 @@ func (h *harness) runScript(s Script, tie *lib.Tie) {
 		}
 		h.mon.Eval(key, true, nil)
 		monitorOp(h.mon, s, i, want[i], code[i], pre, notes[i])
-		if op.isWrite() {
+		if op.isWrite() && code[i] != constructPanic {
 			pre = afterBar(code[i])
 		}
 	}
@@ -217,6 +277,13 @@ func monitorOp(m *lib.Monitor, s Script, i int, want, got, pre, note string) {
 	op := s.Ops[i]
 	in := map[string]any{"script": prefix(s, i+1)}
 	name := "C01/" + callName[op.Op]
+	if want == constructPanic || got == constructPanic {
+		// the resource is constructed from an option list: it panics exactly when the reference says so
+		if want != got {
+			m.Violate("C01/New/construction", "constructing the resource from its option list panics although the reference does not, or the other way round (WithInitialRecord panics exactly when the id was already given)", in, want, got)
+		}
+		return
+	}
 	if strings.HasPrefix(got, "panic:") || strings.HasPrefix(got, "!") {
 		m.Violate(name+"/panic-or-stall", "the call panicked or did not return", in, want, got)
 		return
@@ -236,11 +303,11 @@ func monitorOp(m *lib.Monitor, s Script, i int, want, got, pre, note string) {
 		if stOf(afterBar(got)) != stOf(pre) {
 			m.Violate("C01/failed-call/contents-changed", "a failing call changed the contents", in, stOf(pre), stOf(afterBar(got)))
 		}
-		if part(got, "ev") != "[]" {
+		if e := part(got, "ev"); e != "[]" && e != "#0" {
 			m.Violate("C01/failed-call/event-emitted", "a failing call emitted a bus event", in, "[]", part(got, "ev"))
 		}
 	}
-	if op.has("gid") && (op.Op == "add" || op.Op == "upd") && s.Cfg.Kind == "coll" && !failed && newOracle(s.Cfg).icpt(op.ID) == "" {
+	if op.has("gid") && (op.Op == "add" || op.Op == "upd") && s.Cfg.Kind == "coll" && !failed && probed(s.Cfg) && newOracle(s.Cfg).icpt(op.ID) == "" {
 		monitorGenID(m, s, i, got, pre)
 	}
 	if s.Cfg.Kind == "coll" {
@@ -269,7 +336,7 @@ func monitorOp(m *lib.Monitor, s Script, i int, want, got, pre, note string) {
 // outputIDs: the ids in the events and id-callback invocations of an answer.
 func outputIDs(ans string) []string {
 	var ids []string
-	if ev := strings.Trim(part(ans, "ev"), "[]"); ev != "" {
+	if ev := strings.Trim(part(ans, "ev"), "[]"); ev != "" && !strings.HasPrefix(ev, "#") {
 		for _, e := range strings.Split(ev, ";") {
 			ids = append(ids, strings.SplitN(e, "|", 2)[0])
 		}
@@ -436,7 +503,7 @@ func genScript(r *rand.Rand, n int) Script {
 				op = Op{Op: "list", Opts: genReadOpts(r, true)}
 			}
 		}
-		op.Opts = withRepeats(r, op.Opts, op.Op)
+		op.Opts = respell(r, withRepeats(r, op.Opts, op.Op))
 		if s.Share && r.Intn(5) < 3 {
 			if op.isWrite() {
 				k := r.Intn(len(master) + 1)
@@ -510,7 +577,14 @@ func (h *harness) smallScope(maxLen int) {
 	for _, kind := range []string{"val", "coll"} {
 		alpha = nil
 		for _, m := range []string{"1/x/-", "2//4"} {
-			for _, o := range [][]string{nil, {"nw"}, {"mw=s"}, {"um=a"}, {"rs=c", "nw"}} {
+			os := [][]string{nil, {"nw"}, {"mw=s"}, {"um=a"}, {"rs=c", "nw"}}
+			// the same options in their With…Paths spelling (and an EmptyWriteOption between them)
+			if kind == "val" {
+				os = append(os, []string{"ump=a", "nop", "rsp=c"})
+			} else {
+				os = append(os, []string{"ump=a", "mwp=s", "mump=s"})
+			}
+			for _, o := range os {
 				if kind == "val" {
 					alpha = append(alpha, Op{Op: "vset", Msg: m, Opts: o})
 				} else {
@@ -689,6 +763,41 @@ func (h *harness) sharedScope(maxLen int) {
 	}
 }
 
+// resScope runs, for ALL ordered lists of resource options up to maxLen over a small alphabet, a fixed
+// probe sequence on the resource constructed from the list.
+func (h *harness) resScope(maxLen int) {
+	fams := []struct {
+		kind  string
+		alpha []string
+		probe []Op
+	}{
+		{"coll", []string{"W:a", "W:nil", "Wp:s", "icpt:lower", "icpt:nil", "rec:a~1/x/-", "rec:A~2//-", "rec:a~3//4", "nop", "eqv:sameA", "init:5//-"},
+			[]Op{{Op: "list"}, {Op: "get", ID: "A"}, {Op: "upd", ID: "a", Msg: "9/z/4", Opts: []string{"um=a"}},
+				{Op: "add", ID: "A", Msg: "8/y/-"}, {Op: "del", ID: "a"}, {Op: "list", Opts: []string{"rm=s"}}}},
+		{"val", []string{"W:a", "W:nil", "Wp:s", "init:1/x/-", "init:nil", "init:2//4", "rec:a~1/x/-", "eqv:always", "nop", "icpt:lower"},
+			[]Op{{Op: "vget"}, {Op: "vset", Msg: "9/z/4"}, {Op: "vset", Msg: "7//-", Opts: []string{"um=s"}}, {Op: "vget", Opts: []string{"rm=a,s"}}}},
+	}
+	for _, fam := range fams {
+		n := 0
+		var rec func(res []string)
+		rec = func(res []string) {
+			if len(res) > 0 {
+				cfg := resolveRes(Cfg{Kind: fam.kind, Tick: 1, Res: res})
+				h.runScript(Script{Cfg: cfg, Ops: fam.probe}, h.tieR)
+				n++
+			}
+			if len(res) == maxLen {
+				return
+			}
+			for _, a := range fam.alpha {
+				rec(append(append([]string(nil), res...), a))
+			}
+		}
+		rec(nil)
+		h.tieR.Count(fmt.Sprintf("%s: alphabet=%d maxLen=%d lists=%d", fam.kind, len(fam.alpha), maxLen, n))
+	}
+}
+
 // ---------------------------------------------------------------------------------------------
 
 func replay(f lib.Flags) int {
@@ -713,6 +822,9 @@ func replay(f lib.Flags) int {
 	var s Script
 	if err := json.Unmarshal(b, &s); err != nil {
 		lib.Fatal(err)
+	}
+	if len(s.Cfg.Res) > 0 {
+		s.Cfg = resolveRes(s.Cfg)
 	}
 	m := lib.NewMonitor("replay", "")
 	code, pre, notes := runCode(s)
